@@ -188,6 +188,40 @@ func historyIndependence(c *Check) {
 			*rec = detRecord{Name: fmt.Sprintf("r%d", i), Count: 100 + i, Tags: make([]string, i)}
 			compare(fmt.Sprintf("record overwritten behind a pointer, step %d", i), rec)
 		}
+		// runs which leave a loop early - by a return, by an error - followed by runs in which a function reads a FIELD
+		// named like the loop variable: what the earlier run bound is gone
+		scenarios := []struct {
+			src  string
+			objs []map[string]interface{}
+		}{
+			{`function blocked() { return user in Banned; } if ( blocked() ) { return "blocked"; } foreach user in Admins { if ( user == "root" ) { return "root is an admin here"; } } return "ok";`,
+				[]map[string]interface{}{{"user": "alice", "Banned": []interface{}{"root", "mallory"}, "Admins": []interface{}{"carol", "root"}}}},
+			{`function peek() { return item; } foreach item in Items { if ( item == Stop ) { x = 1 / Zero; } } return peek();`,
+				[]map[string]interface{}{{"item": "field", "Items": []interface{}{1, 2, 3}, "Stop": 2, "Zero": 0}, {"item": "field", "Items": []interface{}{1, 2, 3}, "Stop": 99, "Zero": 0}}},
+			{`function inner() { foreach k, v in Pairs { if ( v == Want ) { return k; } } return "none"; } function outer() { return [inner(), k, v]; } return outer();`,
+				[]map[string]interface{}{{"k": "K", "v": "V", "Pairs": map[string]interface{}{"a": 1, "b": 2}, "Want": 1}, {"k": "K", "v": "V", "Pairs": map[string]interface{}{"a": 1, "b": 2}, "Want": 7}}},
+		}
+		for si, sc := range scenarios {
+			usedS, err := newMachine(sc.src, nil, nil, opt, nil)
+			if err != nil {
+				c.fail("C19 scenario script rejected: " + err.Error())
+				continue
+			}
+			for round := 0; round < 4; round++ {
+				for oi, obj := range sc.objs {
+					got := usedS.exec(obj).class()
+					want := "prepare failed"
+					if f, err := newMachine(sc.src, nil, nil, opt, nil); err == nil {
+						want = f.exec(obj).class()
+					}
+					c.count(fmt.Sprintf("history-scenario|%v|%d|%d|%d", opt, si, round, oi), true)
+					if got != want {
+						c.disagree(&Disagreement{Kind: "depends-on-history", Script: sc.src, Mode: map[bool]string{true: "opt", false: "noopt"}[opt],
+							Expected: want + " (what a freshly prepared evaluator gives for this object)", Got: got, Detail: map[string]interface{}{"where": fmt.Sprintf("round %d, object %d of the scenario", round+1, oi+1)}})
+					}
+				}
+			}
+		}
 		// fresh objects, with collections in between: an address may be handed out again
 		for i := 0; i < 300; i++ {
 			obj := map[string]interface{}{"Name": fmt.Sprintf("g%d", i), "Count": i, "Tags": []interface{}{}}
